@@ -34,6 +34,8 @@ type Prog struct {
 	reachCache  map[*ssa.Function]map[*ssa.Function]bool
 	synth       map[string]*FuncContract
 	synthUsed   map[*ssa.Function]*FuncContract
+	generated   []string // contract text produced by `generate` directives
+	genNotes    []string
 }
 
 func loadProg(repo, verif string, patterns []string) (*Prog, error) {
@@ -117,6 +119,12 @@ func loadProg(repo, verif string, patterns []string) (*Prog, error) {
 		return nil, err
 	}
 	p.cs = cs
+	if err := p.generateContracts(); err != nil {
+		return nil, err
+	}
+	if _, err := cs.mergeExtensions(); err != nil {
+		return nil, err
+	}
 	for fn := range p.allFns {
 		id := p.contractID(fn)
 		if id == "" {
